@@ -91,6 +91,35 @@ def run(rec):
                         rec.check(np.allclose(C, exp, atol=tol), 'correlation_function:value',
                                   f'ops {a},{b}: max dev {np.abs(C - exp).max()} at {np.unravel_index(np.argmax(np.abs(C - exp)), C.shape)}',
                                   dict(inp, ops=(a, b)))
+                # `hermitian=True` shortcut: lower triangle from the upper one, for pairs (a, a^dagger) on complex states
+                for a in cand[:3]:
+                    b = s0.get_hc_op_name(a)
+                    if b not in s0.opnames:
+                        continue
+                    ok, C = rec.guarded('correlation_function(hermitian=True):exception', lambda: psi.correlation_function(a, b, hermitian=True), dict(inp, ops=(a, b)))
+                    if ok:
+                        exp = np.array([[mpsgen.expect_dense(v, sites, [(a, i), (b, j)]) for j in range(L)] for i in range(L)])
+                        rec.check(np.allclose(C, exp, atol=tol), 'correlation_function(hermitian=True):value',
+                                  f'ops {a},{b}: max dev {np.abs(C - exp).max()} at {np.unravel_index(np.argmax(np.abs(C - exp)), C.shape)}', dict(inp, ops=(a, b)))
+                # correlation functions of terms, moving the right / the left term (fermionic terms with JW included)
+                if L >= 4:
+                    for a in cand[:4]:
+                        b = s0.get_hc_op_name(a)
+                        if b not in s0.opnames:
+                            continue
+                        tL, tR = [(a, 0)], [(b, 0)]
+                        jR = list(range(1, L))
+                        ok, c = rec.guarded('term_correlation_function_right:exception',
+                                            lambda: psi.term_correlation_function_right(tL, tR, i_L=0, j_R=jR), dict(inp, ops=(a, b)))
+                        if ok:
+                            exp = [mpsgen.expect_dense(v, sites, [(a, 0), (b, j)]) for j in jR]
+                            rec.check(np.allclose(c, exp, atol=tol), 'term_correlation_function_right:value', f'ops {a},{b}: {np.asarray(c)} vs {np.asarray(exp)}', dict(inp, ops=(a, b)))
+                        iL = list(range(0, L - 1))
+                        ok, c = rec.guarded('term_correlation_function_left:exception',
+                                            lambda: psi.term_correlation_function_left(tL, tR, i_L=iL, j_R=L - 1), dict(inp, ops=(a, b)))
+                        if ok:
+                            exp = [mpsgen.expect_dense(v, sites, [(a, i), (b, L - 1)]) for i in sorted(iL, reverse=True)]    # values are returned for descending i
+                            rec.check(np.allclose(c, exp, atol=tol), 'term_correlation_function_left:value', f'ops {a},{b}: {np.asarray(c)} vs {np.asarray(exp)}', dict(inp, ops=(a, b)))
                 # explicit operator string (bosonic ops only)
                 bos = [n for n in cand if not s0.op_needs_JW(n)]
                 if L >= 3 and bos:
@@ -113,6 +142,21 @@ def run(rec):
                     if ok:
                         exp = [mpsgen.expect_dense(v, sites, [(nm2, i)], bra=w) for i in range(L)]
                         rec.check(np.allclose(ev, exp, atol=tol), 'MPSEnvironment.expectation_value:bra-ket', f'{ev} vs {exp}', inp)
+                    # correlation function between different (and unnormalised) bra and ket
+                    if bos:
+                        a_, b_ = bos[0], bos[-1]
+                        for scale_norm in (1.0, 1.7):
+                            phi2 = phi.copy()
+                            phi2.norm = scale_norm
+                            env2 = MPSEnvironment(phi2, psi)
+                            ok, C = rec.guarded('MPSEnvironment.correlation_function:exception', lambda: env2.correlation_function(a_, b_), inp)
+                            if ok:
+                                exp = scale_norm * np.array([[mpsgen.expect_dense(v, sites, [(a_, i), (b_, j)], bra=w) for j in range(L)] for i in range(L)])
+                                off = ~np.eye(L, dtype=bool)
+                                rec.check(np.allclose(C[off], exp[off], atol=tol), 'MPSEnvironment.correlation_function:offdiagonal',
+                                          f'bra norm {scale_norm}: max dev {np.abs(C - exp)[off].max()}', dict(inp, ops=(a_, b_), bra_norm=scale_norm))
+                                rec.check(np.allclose(np.diag(C), np.diag(exp), atol=tol), 'MPSEnvironment.correlation_function:diagonal',
+                                          f'bra norm {scale_norm}: diag {np.diag(C)} vs dense {np.diag(exp)}', dict(inp, ops=(a_, b_), bra_norm=scale_norm))
                 # --- reduced density matrix
                 if L >= 3:
                     seg = sorted(rng.choice(L, size=2, replace=False).tolist())
